@@ -55,10 +55,10 @@ class MultiValueTracker(Tracker):
         tracked_values: dict = self.get()
         if len(self._tracked_keys) <= 1:
             return tracked_values
-        try:
-            tracked_values = {key: value / sum(tracked_values.values()) for key, value in tracked_values.items()}
-        except ZeroDivisionError:
-            tracked_values = {key: 0. for key in tracked_values.keys()}
+        value_sum = sum(tracked_values.values())
+        if value_sum == 0:  # NumPy scalars do not raise ZeroDivisionError but yield inf / NaN
+            return {key: 0. for key in tracked_values.keys()}
+        tracked_values = {key: value / value_sum for key, value in tracked_values.items()}
         return tracked_values
 
     def __repr__(self):
